@@ -270,7 +270,8 @@ func runC06(rc *RunCtx) {
 						} else {
 							simrt.Sleep(window / 10)
 						}
-						write(payload(G, 1+G.Draw(400)))
+						// the first trickle must complete the 50 bytes the server waits for
+						write(payload(G, 50+G.Draw(400)))
 					}
 				}
 				gotEnd.WaitFor(window - (simrt.Elapsed() - p.connectAt))
@@ -329,6 +330,12 @@ func runC06(rc *RunCtx) {
 					rc.Failf("probe-dialed:"+cls, "probe %d (%s): target dialed for unauthenticated input", p.k, p.desc)
 				}
 			}
+			if gotRst && p.lastWrite+skew+time.Microsecond >= rstRecv {
+				// the client was still writing at the instant of the close (clock ticks can
+				// push a trickled write onto the deadline): unread data legitimately resets
+				rc.Probe("client_write_at_close_instant")
+				continue
+			}
 			if gotRst {
 				rc.Failf("probe-reset:"+cls, "probe %d (%s): connection was reset (RST at %v; client's last write at %v, %d bytes sent, server read %d)", p.k, p.desc, rstRecv, p.lastWrite, p.sent, srvEnd.NRead)
 			}
@@ -345,10 +352,8 @@ func runC06(rc *RunCtx) {
 			} else {
 				want = p.connectAt + srv.Timeout
 			}
-			if p.behav == 1 && !p.didFin {
-				// the deadline came first (finFrac*T/10 >= T cannot happen: finFrac<10), so this is early
-				want = p.finAt
-			}
+			// behav 1 without a FIN: injected clock ticks delayed the client's FIN past the
+			// handshake deadline, so the deadline applies (want is already connect+T)
 			if endAt < want || endAt > want+skew {
 				when := "the handshake deadline"
 				if p.didFin && p.behav == 1 {
